@@ -126,7 +126,8 @@ def monitor(case, tr, raw, stats=None):
         elif kind == 99 and loc == 900 and stats is not None:
             if op in (SIGNAL, SIGNALM, BCAST, BCASTM) and t in expect:
                 stats["spin"] = stats.get("spin", 0) + 1
-            elif t in in_maint_unlock:
+        elif kind == 9 and 100 <= loc < 200 and loc % 2 == 1 and val == 0 and stats is not None:
+            if t in in_maint_unlock:        # a failed pop of the deferred unlock: retried at once
                 stats["maint_spin"] = stats.get("maint_spin", 0) + 1
         elif kind == 909:
             if op in (WAIT, WAITIF) and val == 11:
@@ -258,7 +259,7 @@ def run(ctx):
                                                "yields_of_a_claiming_signal/broadcast(spin on unlinked waiter or "
                                                "contended unlock)": stats.get("spin", 0),
                                                "broadcast_of_2_or_more": stats.get("bcast2", 0),
-                                               "yields_inside_do_maintenance(deferred unlock spins on an unlinked "
+                                               "pop_retries_inside_do_maintenance(deferred unlock spins on an unlinked "
                                                "mutex waiter)": stats.get("maint_spin", 0),
                                                "runs_ending_with_unsignalled_waiters": stats.get("blocked_runs", 0)},
                              "rule": "case = (wait/wait-if/signal/broadcast/set-flag/read programs per fiber, schedule)"})
@@ -303,11 +304,12 @@ TRUSTED = [
     "rt/rt.c (TSan-hook baton scheduler) and rt/t1.c (T1 machine: real fiber_manager.c/fiber.c, one pthread per fiber; "
     "context switch, run queues and event layer replaced)",
     "hand-written models coq/T1K.v + coq/Cond.v (Cond.kstepC overrides T1K.kstep for one case: the yield of a failed "
-    "pop inside do_maintenance is only the fiber_scheduler_next point); tie = identical per-access traces",
+    "pop inside do_maintenance returns at once, without a scheduling point (repo 9f9cf90), and the pop is retried); "
+    "tie = identical per-access traces",
     "proof chain: CondPhase.pstep_sim (phases = stacks), CondSteps.inv_reach (invariant), CondThm (statements)",
     "SC interleaving; -O0 instrumented build",
 ]
 ASSUME = ["given C01 and C02 (a fiber behaves as a sequential process that is resumed once per wake-up): the T1 cut of DESIGN.md 3.4",
-          "fiber_scheduler_next finds nothing to run in T1: a yield inside do_maintenance (deferred unlock that must spin) "
-          "returns at once; the migration hazard of that yield on the real scheduler is F-C01, outside this property",
+          "a yield inside do_maintenance (deferred unlock that must spin) returns at once (repo 9f9cf90: the scheduler-loop "
+          "fiber is never queued); on T1 it is not a scheduling point",
           "every waiter passes the same user mutex (cond->caller_mutex discipline) and holds it when calling cond_wait"]
